@@ -254,10 +254,22 @@ class ApiNamespace:
         data_types = set()  # type: typing.Set[UserDefined]
         for route in self.routes:
             data_types |= self.get_route_io_data_types_for_route(route)
-        # Types of different namespaces may share a name: break the tie so that
-        # the order does not depend on set iteration order.
+        # Types of different namespaces may share a name, and every map is named
+        # 'Map': break the ties so that the order does not depend on set
+        # iteration order.
+        def describe(dt):
+            if hasattr(dt, 'key_data_type'):
+                return 'Map(%s, %s)' % (describe(dt.key_data_type),
+                                        describe(dt.value_data_type))
+            inner = getattr(dt, 'data_type', None)
+            if inner is not None and not is_alias(dt):
+                return '%s(%s)' % (dt.name, describe(inner))
+            return '%s.%s' % (getattr(getattr(dt, 'namespace', None), 'name', ''), dt.name)
+
         return sorted(data_types,
-                      key=lambda dt: (dt.name, getattr(getattr(dt, 'namespace', None), 'name', '')))
+                      key=lambda dt: (dt.name,
+                                      getattr(getattr(dt, 'namespace', None), 'name', ''),
+                                      describe(dt)))
 
     def get_route_io_data_types_for_route(self, route):
         # type: (ApiRoute) -> typing.Set[UserDefined]
